@@ -770,3 +770,56 @@ def check_broadcast_stores(run, funcs, rule='R10l'):
                                   'of its length on the way: a 1-element vector (or scalar) is broadcast over the slice instead of being '
                                   'rejected' % (v, src(t, 30)), f=f, node=a)
     return n
+
+
+def check_none_default_tests(run, funcs, rule='R10n'):
+    """A parameter whose default is None is "not given" exactly when it IS None.  Testing its truth value instead (`if not theta:`,
+    `if theta:`, `theta or 1`) also treats 0, 0.0 and an empty sequence as "not given" -- and raises for an array of several
+    elements.  For a parameter documented as a number / angle / array_like that is a wrong answer for the valid argument 0."""
+    n = 0
+    for f in funcs:
+        dfl = f.defaults()
+        cand = [p for p, d in dfl.items() if isinstance(d, ast.Constant) and d.value is None and p != f.selfname]
+        if not cand:
+            continue
+        ty = doc_types(f)
+        cand = [p for p in cand if re.search(r'float|int\b|scalar|array|ndarray|vector|angle|number', ty.get(p, '') or '') or not ty.get(p)]
+        if not cand:
+            continue
+        # the first rebinding of each name: a test before it (in source order) sees the argument itself
+        stored = {}
+        for x in own_walk(f.node):
+            if isinstance(x, ast.Name) and isinstance(x.ctx, ast.Store):
+                stored[x.id] = min(stored.get(x.id, 10 ** 9), x.lineno)
+        flagged = set()
+
+        def truth_uses(test):
+            """bare names used for their truth value in a test expression"""
+            out = []
+            if isinstance(test, ast.Name):
+                out.append(test)
+            elif isinstance(test, ast.UnaryOp) and isinstance(test.op, ast.Not):
+                out += truth_uses(test.operand)
+            elif isinstance(test, ast.BoolOp):
+                for v in test.values:
+                    out += truth_uses(v)
+            return out
+        for st in own_walk(f.node):
+            tests = []
+            if isinstance(st, (ast.If, ast.While, ast.IfExp, ast.Assert)):
+                tests.append(st.test)
+            elif isinstance(st, ast.BoolOp) and isinstance(st.op, ast.Or):
+                tests += st.values[:-1]          # `p or default`
+            for t in tests:
+                for nmn in truth_uses(t):
+                    if nmn.id in cand and getattr(t, 'lineno', 0) <= stored.get(nmn.id, 10 ** 9):
+                        n += 1
+                        flagged.add(nmn.id)
+                        run.violation(rule, f.key, 'truth test of %s' % nmn.id, 'parameter %s defaults to None but is tested for truth (%s): the valid '
+                                      'argument 0 (or an empty sequence) is treated as "not given", and an array of several elements has no truth '
+                                      'value; the test must be `%s is None`' % (nmn.id, src(t, 40), nmn.id), f=f, node=t)
+        for p in cand:
+            n += 1
+            if p not in flagged:
+                run.holds(rule, f.key, 'default None of %s' % p, 'never tested for truth, only against None', f=f, nontrivial=False)
+    return n
